@@ -1,11 +1,11 @@
 SPECIFICATION MCSpecX
 CONSTANTS
   Recs = {1, 2}
-  Obs = {1, 2}
-  Vals = {0, 1, 2}
-  MaxDepth = 5
+  Obs = {1}
+  Vals = {0, 1}
+  MaxDepth = 4
   Extra = {}
-  DB = FALSE
+  DB = TRUE
   Dev = "none"
 VIEW MCView
 CONSTRAINT Depth
